@@ -15,9 +15,9 @@ IsUnhashableKnown(v) == v.k = "known" /\ v.o.c \in {"list", "dict", "set"}
 (*   MultiValuedValue.__eq__ (value.py:2054: equal tuples, or equal *sets* *)
 (*   of members when every member is hashable).                            *)
 (***************************************************************************)
-\* hash(a) = hash(b)?  Generated dataclass hashes are structural and ORDER-SENSITIVE for the member
-\* tuple of a union (value.py:1943 frozen dataclass); KnownValue of an unhashable object hashes by id(),
-\* i.e. two separately created literals never hash alike.
+\* hash(a) = hash(b)?  Generated dataclass hashes are structural; MultiValuedValue.__hash__ hashes the
+\* frozenset of the members (order-insensitive, consistent with __eq__); KnownValue of an unhashable
+\* object hashes by id() (value.py:636), i.e. two separately created literals never hash alike.
 RECURSIVE HasUnhashableKnown(_)
 HasUnhashableKnown(v) ==
     CASE v.k = "known"    -> IsUnhashableKnown(v)
@@ -26,7 +26,18 @@ HasUnhashableKnown(v) ==
       [] v.k = "subclass" -> HasUnhashableKnown(v.t)
       [] v.k = "union"    -> \E i \in 1..Len(v.ms) : HasUnhashableKnown(v.ms[i])
       [] OTHER            -> FALSE
-ImplSameHash(a, b) == a = b /\ ~HasUnhashableKnown(a)
+\* structural equality in which the members of a union form a set
+RECURSIVE StructEq(_, _)
+StructEq(a, b) ==
+    IF a.k # b.k THEN FALSE
+    ELSE CASE a.k = "generic"  -> a.c = b.c /\ Len(a.args) = Len(b.args) /\ \A i \in 1..Len(a.args) : StructEq(a.args[i], b.args[i])
+           [] a.k = "seq"      -> a.c = b.c /\ Len(a.ms) = Len(b.ms)
+                                  /\ \A i \in 1..Len(a.ms) : a.ms[i].many = b.ms[i].many /\ StructEq(a.ms[i].t, b.ms[i].t)
+           [] a.k = "subclass" -> StructEq(a.t, b.t)
+           [] a.k = "union"    -> /\ \A i \in 1..Len(a.ms) : \E j \in 1..Len(b.ms) : StructEq(a.ms[i], b.ms[j])
+                                  /\ \A j \in 1..Len(b.ms) : \E i \in 1..Len(a.ms) : StructEq(a.ms[i], b.ms[j])
+           [] OTHER            -> a = b
+ImplSameHash(a, b) == StructEq(a, b) /\ ~HasUnhashableKnown(a)
 
 RECURSIVE ImplEq(_, _), ImplEqSeq(_, _), ImplEqMembers(_, _), ImplHashable(_)
 
@@ -46,6 +57,7 @@ ImplEq(a, b) ==
            [] a.k = "generic"  -> a.c = b.c /\ ImplEqSeq(a.args, b.args)
            [] a.k = "seq"      -> a.c = b.c /\ ImplEqMembers(a.ms, b.ms)
            [] a.k = "subclass" -> ImplEq(a.t, b.t)
+           [] a.k = "typevar"  -> a.n = b.n          \* TypeVarValue (terms of Algebra.tla only)
            [] a.k = "union"    ->
                 \/ ImplEqSeq(a.ms, b.ms)
                 \/ /\ \A i \in 1..Len(a.ms) : \E j \in 1..Len(b.ms) : ImplEq(a.ms[i], b.ms[j]) /\ ImplSameHash(a.ms[i], b.ms[j])
